@@ -9,9 +9,9 @@ PROP = dict(
              "2-5 bidders (rich, poor, unfunded), bid factor in {0, 1e-6, 0.01, 0.05, 0.1, 1/3, 1}, 8-30 ops: bids that are barely improving (exact threshold), "
              "threshold-1, equal, lower, zero, negative, unaffordable, wrong denom, wrong expected-user-token; block hooks at small steps and exactly on / one second "
              "past bid_end and end (restart without bids, close with bids), closes that fail (collector without the lot, tokenmint supply too small); "
-             "limit cases (2 of 8, plus 7 corpus cases that always run first: the witnesses of the repaired defects C11-F1 amount, C11-F1 denom, C11-F2; "
+             "limit cases (2 of 8, plus 8 corpus cases that always run first: the witnesses of the repaired defects C11-F1 amount, C11-F1 denom, C11-F2; "
              "the thorough-tier history in which a bid is cut down to the left-over collateral below the penalty; a record above the debt of an under-collateralised "
-             "auction with a sufficient and with an insufficient app reserve; two records below the debt in one closure; a record above the debt followed by a second record): "
+             "auction with a sufficient and with an insufficient app reserve; the cut-down history with an insufficient reserve next to another depositor; two records below the debt in one closure; a record above the debt followed by a second record): "
              "2-5 depositors, 3 debt denoms / markets, closing and withdrawal fee in {0, 1e-6, 0.005, 0.01, 0.1, 1}, 8-44 ops: deposit, cancel "
              "(repeated, foreign), withdraw with amount in {own, own+1, own-1, 2*own+900000, 0, 1, 2900000, own/2} and 18% foreign denoms held by the module; "
              "in 55% of the limit cases 1-2 Dutch auctions of an external initiator (debt 0.5-3 M, penalty in {0, 5, 120000}, collateral 0.5x-10x, app reserve none / too small for the shortfall / big) "
